@@ -93,6 +93,22 @@ def moneyRange (p : ChainParams) (v : Int) : Prop := 0 ≤ v ∧ v ≤ (p.maxMon
 instance (p : ChainParams) (v : Int) : Decidable (moneyRange p v) := by
   unfold moneyRange; exact inferInstance
 
+/-- the null outpoint (Core `COutPoint::IsNull`): 32 zero bytes and index 2³² − 1 -/
+def NullOutPoint (o : OutPoint) : Prop := o.hash = Merkle.zero32 ∧ o.n = 0xffffffff
+
+instance (o : OutPoint) : Decidable (NullOutPoint o) := by unfold NullOutPoint; exact inferInstance
+
+/-- a coinbase (Core `CTransaction::IsCoinBase`): exactly one input, and it spends the null outpoint.
+    Stated here on the fields, independently of the helpers `Tx.isCoinbase` / `OutPoint.isNull`
+    of Basic/Tx that mirror the Python methods. -/
+def IsCoinbase (t : Tx) : Prop :=
+  match t.vin with
+  | [i] => NullOutPoint i.prevout
+  | _ => False
+
+instance (t : Tx) : Decidable (IsCoinbase t) := by
+  unfold IsCoinbase; split <;> exact inferInstance
+
 /-- the context-free transaction rules -/
 def ValidTx (p : ChainParams) (t : Tx) : Prop :=
   t.vin ≠ [] ∧ t.vout ≠ [] ∧
@@ -100,8 +116,8 @@ def ValidTx (p : ChainParams) (t : Tx) : Prop :=
   (∀ o ∈ t.vout, moneyRange p o.nValue) ∧
   (∀ k ∈ List.range (t.vout.length + 1), moneyRange p ((t.vout.take k).map (·.nValue)).sum) ∧
   (t.vin.map (fun i => (i.prevout.hash, i.prevout.n))).Nodup ∧
-  (if t.isCoinbase then ∀ i ∈ t.vin, 2 ≤ i.scriptSig.length ∧ i.scriptSig.length ≤ 100
-   else ∀ i ∈ t.vin, i.prevout.isNull = false)
+  (if IsCoinbase t then ∀ i ∈ t.vin, 2 ≤ i.scriptSig.length ∧ i.scriptSig.length ≤ 100
+   else ∀ i ∈ t.vin, ¬ NullOutPoint i.prevout)
 
 instance (p : ChainParams) (t : Tx) : Decidable (ValidTx p t) := by
   unfold ValidTx; exact inferInstance
@@ -142,7 +158,7 @@ instance (vtx : List Tx) : Decidable (CommitmentOk vtx) := by
 /-- exactly the first transaction is a coinbase -/
 def CoinbaseFirstOnly : List Tx → Prop
   | [] => False
-  | cb :: rest => cb.isCoinbase = true ∧ ∀ t ∈ rest, t.isCoinbase = false
+  | cb :: rest => IsCoinbase cb ∧ ∀ t ∈ rest, ¬ IsCoinbase t
 
 instance (vtx : List Tx) : Decidable (CoinbaseFirstOnly vtx) := by
   unfold CoinbaseFirstOnly; split <;> exact inferInstance
